@@ -26,19 +26,19 @@ func init() {
 			var hs []int64
 			dev := 1 // the wide phase; thorough adds a second phase with two deviations
 			mults := []float64{0, 0.3, 1.5}
-			offs := [][3]float64{{0, 0, 0}, {1, 0, 0}, {0, 0, 1}, {-2.5, 2.5, 1}, {0, 4, -1}}
+			offs := [][3]float64{{0, 0, 0}, {1, 0, 0}, {0, 0, 1}, {-2.5, 2.5, 1}, {0, 4, -1}, {math.Inf(1), 0, 0}}
 			mapCap := 16
 			hs = []int64{2, 3, 4, 5, 18, 35}
 			qhs, qmults, qoffs := hs, mults, offs
 			if tier == "thorough" {
 				mults = []float64{0, 0.3, 1, 1.5, 2.5}
-				offs = [][3]float64{{0, 0, 0}, {1, 0, 0}, {0, 1, 0}, {0, 0, 1}, {2.5, -1, 0}, {-2.5, 2.5, 1}, {0, 4, -1}, {3, 3, 2.5}}
+				offs = [][3]float64{{0, 0, 0}, {1, 0, 0}, {0, 1, 0}, {0, 0, 1}, {2.5, -1, 0}, {-2.5, 2.5, 1}, {0, 4, -1}, {3, 3, 2.5}, {math.Inf(1), 0, 0}}
 				mapCap = 64
 				hs = []int64{2, 3, 4, 5, 6, 10, 18, 25, 31, 35}
 			}
 			corridorPhase := func(name, note string, dev, mapCap int, hs []int64, mults []float64, offs [][3]float64) engine.Phase {
 				return engine.Phase{Name: name, ShardDepth: 3, Bounds: engine.Bounds{EnvDev: dev, InputDev: -1},
-					Rule: note + "full product h x v in {h, h-1, 0} x base voxel (mid-grid north, equator, far south) x end offset (8 shapes, <= 12 line voxels) x radius in {0,0.3,1,1.5,2.5} local voxel widths x skip flag, each under all map-iteration executions within the deviation bound; oracle: duplicate-free, requested zooms, superset of the line IDs, radius 0 => exactly the line IDs, every added ID inside the N-layer box of the line for the maximal fitted layers, measured subset of skipped, no added voxel farther than the radius (independent ECEF distance), identical set across executions; non-trivial = distinct (segment, radius, flag) whose result has more IDs than the line",
+					Rule: note + "full product h x v in {h, h-1, 0} x base voxel (mid-grid north, equator, far south) x end offset (9 shapes, <= 12 line voxels; one of them runs from the first to the last column of a grid of <= 8 columns, so that the search box wraps onto itself) x radius in {0,0.3,1,1.5,2.5} local voxel widths x skip flag, each under all map-iteration executions within the deviation bound; oracle: duplicate-free, requested zooms, superset of the line IDs, radius 0 => exactly the line IDs, every added ID inside the N-layer box of the line for the maximal fitted layers, measured subset of skipped, no added voxel farther than the radius (independent ECEF distance), identical set across executions; non-trivial = distinct (segment, radius, flag) whose result has more IDs than the line",
 					Body: func(c *engine.Ctx) {
 						h := hs[c.In("h", len(hs))]
 						vsel := c.In("v", 3)
@@ -54,6 +54,15 @@ func init() {
 							c.Skip("layer-fit-would-not-terminate-on-this-grid")
 						}
 						X0, Y0, F0 := float64(b.x)+0.5, float64(b.y)+0.5, float64(b.f)+0.5
+						if math.IsInf(off[0], 1) {
+							// the line runs from the first to the last column of the grid: line plus search box cover
+							// every column, so shifted positions of different line voxels wrap onto each other
+							if h > 3 {
+								c.Skip("full-width-line-only-on-small-grids")
+							}
+							X0 = 0.5
+							off = [3]float64{float64(n - 1), 0.25, 0}
+						}
 						lon0, lat0, alt0, ok0 := gridToGeo(X0, Y0, F0, h, v)
 						lon1, lat1, alt1, ok1 := gridToGeo(X0+off[0], Y0+off[1], F0+off[2], h, v)
 						if !ok0 || !ok1 {
